@@ -95,7 +95,9 @@ def run(chk):
     quick = chk.tier == "quick"
     names = shared_names()
     defs = definitions(names)
-    sizes = [(3, 2), (2, 2)] if quick else [(3, 3), (3, 2), (2, 3), (2, 2)]
+    # (definition tables of the composite intermediates on (3,3) cost ~50 min per
+    #  trace chunk: the thorough tier stays at mixed 3/2 spaces)
+    sizes = [(3, 2), (2, 2)] if quick else [(3, 2), (2, 3), (2, 2)]
     gm = make_models(names, sizes, (1, 2), defs)
     refs = [(k + 1, gm[k]["noa"], gm[k]["nva"]) for k in range(len(gm))]
     header = {"op": "globals", "gm": gm}
